@@ -242,6 +242,7 @@ func runPaths(in string, ripemd, maxPaths int, seed int64, sum *tl.Summary) {
 	}
 	var bs [][]step
 	usedEdges := map[int]bool{}
+	probes := 0
 	for _, p := range paths {
 		var ni nodeInfo
 		root := es[p[0]].u
@@ -257,6 +258,18 @@ func runPaths(in string, ripemd, maxPaths int, seed int64, sum *tl.Summary) {
 			b = append(b, step{Act: edges[ei].Act, St: edges[ei].Pto})
 			usedEdges[ei] = true
 		}
+		// probe: the model identifies states that the implementation reaches with different
+		// hidden state (journal, dirty sets); ending the transaction makes that state observable
+		last := es[p[len(p)-1]]
+		if edges[last.idx].Act.Op != "Finalise" && edges[last.idx].Act.Op != "IntermediateRoot" {
+			for _, ei := range out[last.v] {
+				if edges[ei].Act.Op == "Finalise" {
+					b = append(b, step{Act: edges[ei].Act, St: edges[ei].Pto})
+					probes++
+					break
+				}
+			}
+		}
 		bs = append(bs, b)
 	}
 	runBehaviours(bs, ripemd, sum, "path")
@@ -265,8 +278,9 @@ func runPaths(in string, ripemd, maxPaths int, seed int64, sum *tl.Summary) {
 	sum.Extra["paths_total"] = total
 	sum.Extra["paths_replayed"] = len(paths)
 	sum.Extra["edges_replayed"] = len(usedEdges)
+	sum.Extra["finalise_probes"] = probes
 	sum.Distinct = len(usedEdges)
-	sum.Rule = fmt.Sprintf("every transition of the TLC state graph (%d nodes, %d edges) is covered by a path from an initial state (%d paths, %d replayed on fresh StateDBs); distinct = distinct graph edges executed", len(raw), len(es), total, len(paths))
+	sum.Rule = fmt.Sprintf("every transition of the TLC state graph (%d nodes, %d edges) is covered by a path from an initial state (%d paths, %d replayed on fresh StateDBs, each extended by Finalise); distinct = distinct graph edges executed", len(raw), len(es), total, len(paths))
 }
 
 // initialProj is Proj(Open(r, w)).
